@@ -292,8 +292,15 @@ pub fn check_multi(case: &MultiCase, run: &MultiRun) -> Option<Violation> {
     let mut first: Option<(usize, &Vec<u8>)> = None;
     for (i, t) in case.tasks.iter().enumerate() {
         let out = &run.outputs[i];
+        if let Some(Some(r)) = run.sink_runs.get(i) {
+            if let Some(m) = &r.sink.reentrant_bad {
+                return v("C15.bytes_differ_inside_a_write_callback", format!("task {} ({}): {}", i, task_name(t), m));
+            }
+        }
         if let Err(e) = out {
-            if e.starts_with("PANIC") || t.same {
+            // (a disturber whose own writer panicked on purpose is not a failure of the library)
+            let injected = !t.same && e.contains(crate::sink::SINK_PANIC);
+            if (e.starts_with("PANIC") && !injected) || t.same {
                 return v(
                     "C15.task_failed",
                     format!("task {} ({}) {}", i, task_name(t), e),
